@@ -228,8 +228,14 @@ def build_api(r, methods):
     resp.field("ok", 1, "string")
     svc = f.service("Router", host="library.example.com")
     for m in methods:
-        svc.rpc(m["name"], req.fqn, resp.fqn, cs=bool(m.get("cs")), http=tuple(m["http"]), body=m.get("body"),
+        custom = m["http"][0] == "custom"
+        svc.rpc(m["name"], req.fqn, resp.fqn, cs=bool(m.get("cs")), http=None if custom else tuple(m["http"]), body=m.get("body"),
                 routing=[tuple(p) for p in m["params"]] if m["kind"] == "explicit" else None)
+        if custom:      # custom { kind: "HEAD" path: "..." } as the primary binding
+            from google.api import annotations_pb2
+            rule = svc.proto.method[-1].options.Extensions[annotations_pb2.http]
+            rule.custom.kind = m.get("custom_kind", "HEAD")
+            rule.custom.path = m["http"][1]
         if m["kind"] == "explicit" and not m["params"]:      # an annotation without parameters is still an annotation
             from google.api import routing_pb2
             svc.proto.method[-1].options.Extensions[routing_pb2.routing].SetInParent()
@@ -264,7 +270,7 @@ def gen_methods(r, n):
                 pat = r.choice([None, "*", "**", "shelves/*", "projects/*/zones/*"]) if v is not vars_[-1] or True else None
                 uri += r.choice(["/", "/x/", "/books/"]) + "{" + v + ("=" + pat if pat else "") + "}"
             uri += r.choice(["", ":frob", "/tail"])
-            verb = r.choice(["get", "post", "put", "delete", "patch"])
+            verb = r.choice(["get", "post", "put", "delete", "patch", "custom"])
             out.append({"name": name, "kind": "implicit", "params": [], "http": (verb, uri), "body": "*" if verb in ("post", "put", "patch") else None,
                         "vars": vars_})
         else:
@@ -552,7 +558,7 @@ def run_e2e(ctx, n_apis, nreq, reserved, tag="e2e", fixed=None):
                 msg = D.new(req_fqn)
                 for p, v in vals.items():
                     set_path(msg, p, v)
-                for tr in ("grpc", "grpc_asyncio", "rest"):
+                for tr in (("grpc", "grpc_asyncio") if m["http"][0] == "custom" else ("grpc", "grpc_asyncio", "rest")):
                     calls.append({"service_module": "router", "client": "RouterAsyncClient" if tr == "grpc_asyncio" else "RouterClient",
                                   "transport": tr, "method": snake(m["name"]),
                                   "request": {"mode": "message", "cls": PKG + ".types:RouteRequest", "b64": D.b64(msg)},
@@ -649,6 +655,8 @@ def load_corpus():
 
 # ====================================================================== entry points
 def regen(ctx):
+    # RESERVED_NAMES first and on its own: the implementation-side stages need nothing else from T0
+    ctx.notes["t0"] = {"RESERVED_NAMES": c06_t0.reserved_names()}
     ctx.notes["t0"] = c06_t0.write_gen()
     ctx.oblige("T0 Gen/RoutingGen.v regenerated from wrappers.py / reserved_names.py with ast (regex-builder constants, field_headers "
                "regex, verb order, disambiguated expression, RESERVED_NAMES); pinned by C06_pin_* and re-checked by C06_reserved_no_dot",
@@ -667,6 +675,9 @@ def corpus_methods():
          "http": ("post", "/v1/c:route"), "body": "*"},
         {"name": "RouteD", "kind": "explicit", "params": [], "http": ("post", "/v1/{name=**}:route"), "body": "*"},
         {"name": "RouteE", "kind": "none", "params": [], "http": ("post", "/v1/e:plain"), "body": "*"},
+        {"name": "RouteI", "kind": "implicit", "params": [], "http": ("custom", "/v1/{name=things/*}"), "body": None, "vars": ["name"]},
+        {"name": "RouteJ", "kind": "implicit", "params": [], "http": ("custom", "/v1/{sub.name=shelves/*}/x/{sub.class}"), "body": None,
+         "vars": ["sub.name", "sub.class"], "custom_kind": "OPTIONS"},
         {"name": "RouteG", "kind": "implicit", "params": [], "http": ("post", "/v1/{name=**}:up"), "body": "*", "vars": ["name"], "cs": True},
         {"name": "RouteH", "kind": "explicit", "params": [("name", "{k=**}"), ("parent", None)], "http": ("post", "/v1/h:up"), "body": "*", "cs": True},
         {"name": "RouteF", "kind": "explicit", "params": [("name", "x/{k=**}"), ("parent", "{k}"), ("resource", "a.b/{j=b/*/c+d}/d/*")],
@@ -685,9 +696,10 @@ def flush(ctx, deferred):
 
 
 def run(ctx):
-    reserved = set(ctx.notes.get("t0", {}).get("RESERVED_NAMES") or c06_t0.reserved_names())
-    if "t0" not in ctx.notes:
-        ctx.notes["t0"] = c06_t0.extract()
+    # the oracle and the end-to-end stages run whatever happened to T0 and to the Coq build
+    if not ctx.notes.get("t0", {}).get("RESERVED_NAMES"):
+        ctx.notes["t0"] = {"RESERVED_NAMES": c06_t0.reserved_names()}
+    reserved = set(ctx.notes["t0"]["RESERVED_NAMES"])
     deferred = []
     # corpus first: the in-code API and corpus/C06/*.json (former findings, fixed upstream)
     c_e2e, c_pure = load_corpus()
@@ -709,7 +721,8 @@ def run(ctx):
 def replay(ctx, rep):
     c = rep.get("case", {})
     reserved = set(c06_t0.reserved_names())
-    ctx.notes["t0"] = c06_t0.extract()
+    if not ctx.notes.get("t0", {}).get("RESERVED_NAMES"):
+        ctx.notes["t0"] = {"RESERVED_NAMES": sorted(reserved)}
     deferred = []
     if "template" in c and "methods" not in c:
         _, deferred = run_pure(ctx, [c["template"]], 4, tag="replay")
